@@ -46,11 +46,11 @@ TOL_SRT_REL = 1e-12  # plus this relative part
 TOL_DNLL = 4e-15  # delta_nll == sigma^2, relative: measured worst 2.2e-16 (one rounding)
 STRICT_GAP = 1e-14  # adjacent reference values that differ by more than this must map to strictly ordered results
 TOL_ARROW_CONV = 1e-11  # arrow y - (min + sigma_ref^2) relative to max(1, sigma^2): pure conversion, measured 4e-15
-TOL_ARROW_CL = 1e-12  # arrow 'cl' against the outside probability: measured 3e-17
-TOL_ARROW_X = 2e-3  # arrow x against the exact parabola, in units of the parameter uncertainty: measured worst 1.3e-4
-TOL_ARROW_COST = 2e-3  # cost at a user-given bound against the exact parabola, relative to max(1, rise): measured worst 1.6e-5
+TOL_ARROW_CL = 1e-12  # arrow 'cl' against the outside probability: measured 0 (same arithmetic)
+TOL_ARROW_X = 2e-3  # arrow x against the exact parabola, in units of the parameter uncertainty: measured worst 9.3e-6 (3 valuations, both backends)
+TOL_ARROW_COST = 1e-4  # cost at a user-given bound against the exact parabola, relative to max(1, rise): measured worst 8.6e-11
 TOL_CONTOUR_CL = 1e-13  # cl keyword against 1 - exp(-sigma^2/2): measured 1.1e-16
-TOL_CONTOUR_GEOM = 0.2  # mean of (d^T C^-1 d) / sigma^2 over the contour points: measured within 0.016 of 1 (mncontour tolerance)
+TOL_CONTOUR_GEOM = 0.05  # mean of (d^T C^-1 d) / sigma^2 over the contour points: measured within 0.002 of 1 (single points scatter by 4 %: mncontour tolerance)
 
 SIGMA_GRID_N = 800
 CL_GRID_N = 2000
